@@ -12,7 +12,14 @@ import (
 	"runtime"
 	"strconv"
 	"strings"
+	"time"
 )
+
+// Watchdog is how long one scheduled step may run before the scheduler declares a livelock (a
+// loop that never reaches a scheduling point, e.g. a walk over a corrupted list). OnLivelock is
+// called with the partial result; it must not return (the stuck goroutine cannot be killed).
+var Watchdog = 3 * time.Second
+var OnLivelock func(res *Result)
 
 // SiteInfo is filled by the generated sites_gen.go.
 type SiteInfo struct {
@@ -201,7 +208,8 @@ func (s *Sched) enabledList() []*G {
 		}
 	}
 	if len(en) == 0 && len(idle) > 0 && len(s.tickable()) == 0 {
-		return idle[:1]
+		// client threads first; the main goroutine (final observation) only when it is alone
+		return idle[len(idle)-1:]
 	}
 	return en
 }
@@ -309,7 +317,16 @@ func Run(cfg Config, main func()) *Result {
 		g := s.gs[c]
 		s.cur = g
 		g.wake <- struct{}{}
-		<-s.parked
+		select {
+		case <-s.parked:
+		case <-time.After(Watchdog):
+			s.logRaw("X", "crash", "livelock: a goroutine ran for "+Watchdog.String()+" without reaching a scheduling point")
+			res := &Result{Trace: s.trace, Choices: s.choices, Steps: s.steps, Crashed: "livelock: no scheduling point reached in " + Watchdog.String()}
+			if OnLivelock != nil {
+				OnLivelock(res)
+			}
+			panic("verifrt: livelock")
+		}
 	}
 	res := &Result{Choices: s.choices, Steps: s.steps, Crashed: s.crashed, Quiescent: quiescent, Ticks: s.ticks}
 	for _, g := range s.gs {
